@@ -100,7 +100,7 @@ def mkUnits {H : Type} (committee publisher : Bytes) (root : H) (tree : List (Li
       :: mkUnits committee publisher root tree sig nonce (i + 1) rest
 
 /-- `CreatePropellerUnits(privKey, committeeID, nonce, message, k, p)`. `publisher` is the peer id
-of `privKey`. In the pinned tree the `Nonce` field of the units is left zero (`cfg.nonceSet`). -/
+of `privKey`. Before d76716c the `Nonce` field of the units was left zero (`cfg.nonceSet = false`). -/
 def createUnits {H : Type} (cfg : Cfg) (f : HashFns H) (rs : RS) (sg : SigScheme H)
     (committee publisher : Bytes) (nonce : Nat) (msg : Bytes) (k p : Nat) : Out (List (PUnit H)) :=
   match padGo msg k with
@@ -125,8 +125,8 @@ def unitShards {H : Type} : List (Option (PUnit H)) → Option (List (Option Byt
     | [] => none
     | s :: _ => (unitShards rest).map (some s :: ·)
 
-/-- The unit whose `MessageRoot` is compared: `units[0]` (nil ⇒ panic) in the pinned tree, the
-first present unit with the fix. -/
+/-- The unit whose `MessageRoot` is compared: the first present unit (since a2bceaf); before,
+`units[0]` (nil ⇒ panic). -/
 def rootUnit {H : Type} (cfg : Cfg) (units : List (Option (PUnit H))) : Option (PUnit H) :=
   if cfg.rootFromPresent then (units.filterMap id).head? else units.headD none
 
